@@ -106,6 +106,26 @@ def slice_desc(eng, st, s):
             if len(tgt.segs) == 1:
                 return tgt.segs[0][1]
             return ("cat", tgt.segs)
+        if tgt.segs is not None:
+            # a region that coincides with whole segments is those segments
+            pos = Lin.const(0)
+            acc = []
+            started = False
+            tot = Lin.const(0)
+            for sl, sd in tgt.segs:
+                if not started and pos == s.start:
+                    started = True
+                if started:
+                    if tot == s.len:
+                        break
+                    acc.append((sl, sd))
+                    tot = tot + sl
+                    if tot.is_const() and s.len.is_const() and tot.c > s.len.c:
+                        acc = None
+                        break
+                pos = pos + sl
+            if started and acc and tot == s.len:
+                return acc[0][1] if len(acc) == 1 else ("cat", tuple(acc))
         return ("vec", b, tgt.name, s.start, s.len, eng.region_state(st, b, tgt, s))
     return ("?", b)
 
